@@ -237,8 +237,22 @@ def case_series(rng):
     m = int(rng.integers(1, 12))
     tg = np.sort(rng.integers(t[0] - 3600, t[-1] + 3600, m)).astype("int64")
     tg[0] = t[int(rng.integers(0, n))]
+    a = a % 360
+    if rng.uniform() < 0.4 and n >= 2:
+        # a pair that is symmetric about north with the target exactly half way: the interpolated direction is
+        # exactly on the seam and must come back as 0.0 (in [0,360)), not 360.0
+        i = int(rng.integers(0, n - 1))
+        dlt = float(rng.integers(1, 60))
+        up = bool(rng.uniform() < 0.5)
+        a[i], a[i + 1] = (360.0 - dlt, dlt) if up else (dlt, 360.0 - dlt)
+        gap = int(t[i + 1] - t[i])
+        if gap % 2:
+            t[i + 1:] += 1
+        tg = np.append(tg, (t[i] + t[i + 1]) // 2)
+        if rng.uniform() < 0.3:
+            a[i] = 360.0 if up else a[i]  # an instrument reporting 360.0 itself
     tg = np.sort(tg)
-    return {"part": "series", "time": t, "dir": a % 360, "lon": (b + 180) % 360 - 180,
+    return {"part": "series", "time": t, "dir": a, "lon": (b + 180) % 360 - 180,
             "lat": rng.uniform(-60, 60, n), "hs": rng.uniform(0, 5, n), "targets": tg}
 
 
